@@ -26,6 +26,7 @@ EXPLANATION = (
     " (P5) DataLoader ends the stream only in a handler of its source's StopIteration (or on a short islice read): no count or size estimate decides it; (P6) ids used as positions are positions (shared with C06-B2); (P7) the CLI zips the input rows with the direct result of rebalance(<those rows>), so every pass-through value lands on a distinct result object of its own row."
     " (P8) the recorded input of a row is a copy of the same frame's reaction column (shared with C02-T2); (P9) the shipped reagent templates have every key the curation code subscripts and every referenced template exists."
     ' (P10) no container that outlives a batch is mutated on the pipeline path (shared with C06-B4); (P11) the command line passes the rows it read to rebalance unfiltered.'
+    " (P12) chunks are not appended to the output under an earlier chunk's layout (shared with C06-B10). (P13) the CSV reader parses under fixed rules, no dialect sniffed from the file. (P14) per-reaction fault handlers are complete (shared with C06-B14)."
 )
 ASSUMPTIONS = ["pandas: frame[boolean mask] keeps only the True rows; reset_index/assignment keep the row count"]
 
